@@ -1791,7 +1791,17 @@ func check(c Case) (out ev.Outcome) {
 				nested = true
 			}
 			for j := 0; j < i; j++ {
-				switch cmp(items[j], items[i], false) {
+				r := cmp(items[j], items[i], false)
+				if r == unk && cat(items[j]) == "num" && cat(items[i]) == "num" {
+					// numerically equal numbers of different Go types are equal items (the statement's
+					// cross-type clause covers UniqueItems as well as Enum and EnumCase)
+					if na, oka := numOf(items[j]); oka {
+						if nb, okb := numOf(items[i]); okb {
+							r = numEq(na, nb)
+						}
+					}
+				}
+				switch r {
 				case yes:
 					dup = true
 				case unk:
